@@ -231,3 +231,43 @@ func metadataFromIncoming(ctx context.Context) (metadata.MD, bool) {
 func metadataOutgoing(ctx context.Context, kv ...string) context.Context {
 	return metadata.AppendToOutgoingContext(ctx, kv...)
 }
+
+// fuzzProp turns a (generator, executor) pair into a native fuzz target: the fuzzer's bytes drive rapid's
+// draws (rapid.MakeFuzz), so coverage guidance steers the same generators the random jobs use.
+func fuzzProp[C any](f *testing.F, id, sub string, gen func(*rapid.T) C, exec func(*testing.T, C) Verdict) {
+	for i := 0; i < 8; i++ {
+		b := make([]byte, 64+64*i)
+		x := uint64(i)*0x9e3779b97f4a7c15 + 1
+		for j := range b {
+			x ^= x << 13
+			x ^= x >> 7
+			x ^= x << 17
+			b[j] = byte(x)
+		}
+		f.Add(b)
+	}
+	f.Fuzz(func(t *testing.T, data []byte) {
+		rapid.MakeFuzz(func(rt *rapid.T) {
+			c := gen(rt)
+			journal(id, sub, c)
+			v := exec(t, c)
+			if v.Fail != "" && v.Known == "" {
+				writeReplay(id, sub, v.Fail, c, v.Detail)
+				rt.Fatalf("VERIF-FAIL %s/%s (fuzz): %s", id, sub, v.Fail)
+			}
+		})(t, data)
+	})
+}
+
+func FuzzC02(f *testing.F) { fuzzProp(f, "C02", "main", genC02, execC02) }
+func FuzzC07(f *testing.F) { fuzzProp(f, "C07", "main", genC07, execC07) }
+func FuzzC09(f *testing.F) { fuzzProp(f, "C09", "main", genC09, execC09) }
+func FuzzC10(f *testing.F) { fuzzProp(f, "C10", "main", genC10, execC10) }
+func FuzzC11(f *testing.F) { fuzzProp(f, "C11", "main", genC11, execC11) }
+func FuzzC14(f *testing.F) { fuzzProp(f, "C14", "main", genC14, execC14) }
+func FuzzC17(f *testing.F) { fuzzProp(f, "C17", "main", genC17, execC17) }
+func FuzzC18(f *testing.F) { fuzzProp(f, "C18", "model", genC18, execC18) }
+func FuzzC20(f *testing.F) { fuzzProp(f, "C20", "main", genC20, execC20) }
+func FuzzC16(f *testing.F) { fuzzProp(f, "C16", "envelopes", genC16, execC16) }
+func FuzzC03(f *testing.F) { fuzzProp(f, "C03", "main", genC03, execC03) }
+func FuzzC04(f *testing.F) { fuzzProp(f, "C04", "main", genC04, execC04) }
